@@ -28,7 +28,7 @@ POINTERS = [0, 1, 0xdeadbeef, 2**64 - 1, 2**63, 4096]
 BUFFERS = [b"", b"\x00", b"\x00\x01\xff", b"abc", bytes(range(20)), b"\xa5" * 16]
 NAMES = [b"a", b"b", b"value", b"p1", b"", b"name with space", b"x" * 40, b"out"]
 FUNCS = [b"foo", b"bar", b"f", b"g", b"", b"a_rather_long_function_name_for_the_report"]
-SCOPES = [None, b"s1", b"s2"]          # None = mock_c()
+SCOPES = [None, b"s1", b"s2", b"a::b"]          # None = mock_c(); "a::b": a scope name that looks nested (it is one name)
 TYPES = [b"Obj", b"Other"]
 
 # stem in member names, stem in getter names, argument kind char of the harness, boundary values
@@ -369,7 +369,8 @@ class Scn:
         elif r < 0.82:
             self.op("S", "checkExpectations")
         elif r < 0.90:
-            self.op("S", "crashOnFailure", 0)
+            # non-zero: the reporter calls the (recorded) crash method before it ends the test; `0 != shouldCrash`
+            self.op("S", "crashOnFailure", self.rng.choice([0, 0, 1, 2, 256, UINT_MAX]))
         elif r < 0.95:
             self.op("S", "hasReturnValue")
         else:
@@ -610,6 +611,40 @@ def sweep_cases():
             "M 7331", "S installComparator 4f626a", "S expectNCalls 2 66", "E withParameterOfType 4f626a 70 o%d" % e,
             "S actualCall 66", "A withParameterOfType 4f626a 70 o%d" % a,
             "S actualCall 66", "A withParameterOfType 4f626a 70 o%d" % e, "S checkExpectations"]))
+    # comparator alone / copier alone / neither, each asked for a typed input parameter and for a typed output parameter
+    # (the missing half fails the test with "no way to compare / copy" through both interfaces)
+    for inst in [[], ["S installComparator 4f626a"], ["S installCopier 4f626a"], ["S installCopier 4f626a", "S installComparator 4f626a"]]:
+        for scope in ["M0", "M 7331", "M 613a3a62"]:
+            out.append(("sweep", [scope] + inst + ["S expectOneCall 66", "E withParameterOfType 4f626a 70 o2", "S actualCall 66",
+                                                   "A withParameterOfType 4f626a 70 o3", "S checkExpectations", "M0", "S clear",
+                                                   "S removeAllComparatorsAndCopiers"]))
+            out.append(("sweep", [scope] + inst + ["S expectOneCall 66", "E withOutputParameterOfTypeReturning 4f626a 6f o4", "S actualCall 66",
+                                                   "A withOutputParameterOfType 4f626a 6f b0", "S checkExpectations", "M0", "S clear",
+                                                   "S removeAllComparatorsAndCopiers"]))
+    # adaptors installed on the global mock reach a scope created later (clone) and one created before (forwarding);
+    # adaptors installed on a named scope stay there; removeAll on the global mock (after clear) makes every scope forget
+    out.append(("sweep", ["M 7331", "M0", "S installComparator 4f626a", "S installCopier 4f626a", "M 7332", "S expectOneCall 66",
+                          "E withParameterOfType 4f626a 70 o6", "E withOutputParameterOfTypeReturning 4f626a 6f o1", "M 7331", "S expectOneCall 66",
+                          "E withParameterOfType 4f626a 70 o0", "S actualCall 66", "A withParameterOfType 4f626a 70 o1", "M 7332",
+                          "S actualCall 66", "A withParameterOfType 4f626a 70 o5", "A withOutputParameterOfType 4f626a 6f b3",
+                          "M0", "S checkExpectations", "S clear", "S removeAllComparatorsAndCopiers",
+                          "M 7332", "S expectOneCall 66", "E withParameterOfType 4f626a 70 o0", "S actualCall 66",
+                          "A withParameterOfType 4f626a 70 o0", "M0", "S clear"]))
+    out.append(("sweep", ["M 7331", "S installComparator 4f626a", "M0", "S expectOneCall 66", "E withParameterOfType 4f626a 70 o0",
+                          "S actualCall 66", "A withParameterOfType 4f626a 70 o0", "S clear", "S removeAllComparatorsAndCopiers"]))
+    # memory buffers and output bytes at the exact lengths of the harness buffers (0, 1, 15, 16 bytes)
+    for n in [0, 1, 15, 16]:
+        b = hx(bytes((i * 7 + 1) & 0xff for i in range(n)))
+        out.append(("sweep", ["M 613a3a62", "S expectOneCall 66", "E withMemoryBufferParameter 6d %s %d" % (b, n),
+                              "E withOutputParameterReturning 6f %s %d" % (b, n), "E andReturnConstPointerValue 18446744073709551615",
+                              "S actualCall 66", "A withMemoryBufferParameter 6d %s %d" % (b, n), "A withOutputParameter 6f b2",
+                              "A constPointerReturnValue", "A returnValue", "S constPointerReturnValue", "S checkExpectations", "M0", "S clear"]))
+    # crashOnFailure: every truth value of the unsigned argument, failure in the body, second failure in teardown
+    for v in [0, 1, 2, 4294967295]:
+        for fail in [["S actualCall 6e6f"], ["S expectOneCall 66", "S checkExpectations"]]:
+            out.append(("sweep", ["M0", "S crashOnFailure %d" % v] + fail + ["T", "M0", "S actualCall 7a"]))
+            out.append(("sweep", ["M 7331", "S crashOnFailure %d" % v, "M0"] + fail))
+    out.append(("sweep", ["M0", "S crashOnFailure 1", "S crashOnFailure 0", "S actualCall 6e6f"]))
     return out
 
 
@@ -639,6 +674,112 @@ def misaligned_case(rng):
     return ops
 
 
+def m_(s):
+    return "M0" if s is None else "M " + hx(s)
+
+
+def adaptor_case(rng):
+    """custom-type adaptors inside the DISCIPLINED class (Lean: Nodes.Disciplined): comparator alone, copier alone, both,
+    installed on the global mock or on a named scope (before / after the scope exists), used by typed parameters and
+    typed output parameters, removeAll only on the global mock after a global clear(), then installed and used again"""
+    ops = []
+    obj = hx(b"Obj")
+    for rnd in range(rng.choice([1, 2, 2, 3])):
+        home = rng.choice(SCOPES)
+        use = home if rng.random() < 0.6 else rng.choice(SCOPES)
+        if rng.random() < 0.3 and use is not None:
+            ops.append(m_(use))                      # the scope exists before the install: it gets the adaptor by forwarding
+        ops.append(m_(home))
+        mode = rng.choice(["both", "both", "comparator", "copier", "none"])
+        if mode in ("both", "comparator"):
+            ops.append("S installComparator " + obj)
+        if mode in ("both", "copier"):
+            ops.append("S installCopier " + obj)
+        if rng.random() < 0.2:
+            ops.append("S installComparator " + hx(b"Other"))
+        ops.append(m_(use))
+        n = rng.choice([1, 1, 2])
+        ops.append("S expectNCalls %d 66" % n if n > 1 else "S expectOneCall 66")
+        e, a = rng.randrange(8), rng.randrange(8)
+        typed_in = rng.random() < 0.7
+        typed_out = rng.random() < 0.6
+        if typed_in:
+            ops.append("E withParameterOfType %s 70 o%d" % (obj, e))
+        if typed_out:
+            ops.append("E withOutputParameterOfTypeReturning %s 6f o%d" % (obj, rng.randrange(8)))
+        if rng.random() < 0.4:
+            ops.append("E andReturnPointerValue %d" % rng.choice(POINTERS))
+        for _ in range(n):
+            ops.append("S actualCall 66")
+            if typed_in:
+                ops.append("A withParameterOfType %s 70 o%d" % (obj, a))
+            if typed_out:
+                ops.append("A withOutputParameterOfType %s 6f b%d" % (obj, rng.randrange(4)))
+            if rng.random() < 0.3:
+                ops.append("A returnPointerValueOrDefault %d" % rng.choice(POINTERS))
+        if rng.random() < 0.5:
+            ops += [m_(use), "S checkExpectations"]
+        ops += ["M0", "S clear"]
+        if rng.random() < 0.8:
+            ops.append("S removeAllComparatorsAndCopiers")
+    return ops
+
+
+def undisciplined_case(rng):
+    """the two ways the C layer's ownership of the adaptor nodes goes wrong (known findings; separately tagged):
+    removeAll on a named scope while another scope still has the adaptors, and removeAll while an expectation still
+    holds one"""
+    obj = hx(b"Obj")
+    v = rng.choice(["scope", "scope", "held-copier", "held-comparator", "held-copier-scope"])
+    if v == "scope":
+        a = rng.choice([s for s in SCOPES if s is not None])
+        return ["M0", "S installComparator " + obj, m_(a), "S removeAllComparatorsAndCopiers", "M0", "S expectOneCall 66",
+                "E withParameterOfType %s 70 o%d" % (obj, rng.randrange(6)), "S actualCall 66",
+                "A withParameterOfType %s 70 o%d" % (obj, rng.randrange(6)), "S checkExpectations", "S clear",
+                "S removeAllComparatorsAndCopiers"]
+    if v == "held-copier":
+        return ["M0", "S installCopier " + obj, "S expectOneCall 66", "E withOutputParameterOfTypeReturning %s 6f o%d" % (obj, rng.randrange(8)),
+                "S removeAllComparatorsAndCopiers", "S actualCall 66", "A withOutputParameterOfType %s 6f b%d" % (obj, rng.randrange(4)),
+                "S checkExpectations", "S clear"]
+    if v == "held-copier-scope":
+        a = rng.choice([s for s in SCOPES if s is not None])
+        return [m_(a), "S installCopier " + obj, "S expectOneCall 66", "E withOutputParameterOfTypeReturning %s 6f o%d" % (obj, rng.randrange(8)),
+                "M0", "S removeAllComparatorsAndCopiers", m_(a), "S actualCall 66",
+                "A withOutputParameterOfType %s 6f b%d" % (obj, rng.randrange(4)), "M0", "S clear"]
+    # the expectation keeps the old comparator; a new one is installed so that the actual side can be compared at all
+    return ["M0", "S installComparator " + obj, "S expectOneCall 66", "E withParameterOfType %s 70 o%d" % (obj, rng.randrange(6)),
+            "S removeAllComparatorsAndCopiers", "S installComparator " + obj, "S actualCall 66",
+            "A withParameterOfType %s 70 o%d" % (obj, rng.randrange(6)), "S checkExpectations", "S clear",
+            "S removeAllComparatorsAndCopiers"]
+
+
+def crash_case(rng):
+    """crashOnFailure with every truth value of its `unsigned` argument, set on one scope, the failure in the same or
+    another scope (the reporter is shared), a second failure in teardown (must not crash again), switched off again"""
+    a, b = rng.choice(SCOPES), rng.choice(SCOPES)
+    v = rng.choice([1, 1, 2, 256, 65536, UINT_MAX, INT_MAX + 1, 0])
+    ops = [m_(a), "S crashOnFailure %d" % v]
+    if rng.random() < 0.25:
+        ops.append("S crashOnFailure %d" % rng.choice([0, 1]))
+    if rng.random() < 0.3:
+        ops += ["S expectOneCall 66", "E andReturnIntValue 3", "S actualCall 66", "A intReturnValue"]
+    ops.append(m_(b))
+    r = rng.random()
+    if r < 0.4:
+        ops.append("S actualCall " + hx(b"unexpected"))
+    elif r < 0.7:
+        ops += ["S expectOneCall 67", "S checkExpectations"]
+    elif r < 0.85:
+        ops += ["S expectOneCall 67", "E withIntParameters 70 1", "S actualCall 67", "A withIntParameters 70 2"]
+    else:
+        ops += ["S expectOneCall 67", "S actualCall 67", "S checkExpectations"]       # no failure at all
+    if rng.random() < 0.6:
+        ops += ["T", m_(rng.choice(SCOPES)), rng.choice(["S actualCall 7a", "S checkExpectations", "S crashOnFailure 0"])]
+        if rng.random() < 0.5:
+            ops += ["M0", "S actualCall 79"]
+    return ops
+
+
 def malformed_case(rng):
     """operations in an order the scenario language does not promise anything about: chain members before any
     expect/actual call, unknown members, bad arguments (printed as `> skip` by both runs), table members only"""
@@ -662,6 +803,12 @@ def generate(rng, tier):
         out.append(("malformed", malformed_case(rng)))
     for i in range(n // 25):
         out.append(("misaligned", misaligned_case(rng)))
+    for i in range(n // 8):
+        out.append(("adaptor", mark(adaptor_case(rng))))
+    for i in range(n // 12):
+        out.append(("crash", mark(crash_case(rng))))
+    for i in range(n // 50):
+        out.append(("undisciplined", undisciplined_case(rng)))
     return out
 
 
@@ -727,6 +874,33 @@ def observe(r, rep):
             rep.count("output.bytes_written")
         elif w[:2] == ["xo", "ackind"]:
             rep.count("actual." + w[2])
+        elif w == ["co", "left", "exception"]:
+            rep.count("exit.C_call_left_by_exception_(assertion_macro_in_the_mock_core)")
+        elif w == ["xo", "left", "exception"]:
+            rep.count("exit.Cpp_call_left_by_exception")
+        elif w[:2] == ["co", "leaked"]:
+            rep.count("leak.C_run_delta_%s" % w[2])
+        elif w == ["co", "crash"]:
+            rep.count("crash.recorded_by_C_run")
+        elif w == ["xo", "crash"]:
+            rep.count("crash.recorded_by_Cpp_run")
+        elif len(w) >= 4 and w[:2] == [">", "c"] and w[3] == "M" and len(w) == 5 and w[4] == "613a3a62":
+            rep.count("scope.name_with_colons")
+    inst = {"installComparator": 0, "installCopier": 0}
+    for l in r.ops:
+        w = l.split()
+        if w[:1] == ["S"] and len(w) >= 2 and w[1] in inst:
+            inst[w[1]] += 1
+        elif w[:2] == ["S", "crashOnFailure"] and len(w) == 3:
+            rep.count("crashOnFailure.zero" if w[2] == "0" else "crashOnFailure.nonzero")
+        elif w[:2] == ["S", "removeAllComparatorsAndCopiers"]:
+            rep.count("adaptor.removeAll")
+    if inst["installComparator"] and not inst["installCopier"]:
+        rep.count("adaptor.comparator_alone")
+    if inst["installCopier"] and not inst["installComparator"]:
+        rep.count("adaptor.copier_alone")
+    if inst["installCopier"] and inst["installComparator"]:
+        rep.count("adaptor.both")
 
 
 def extra(ctx, exe):
@@ -746,37 +920,59 @@ def extra(ctx, exe):
 TRUSTED = [
     "Lean 4 kernel; axioms of every theorem audited (propext, Classical.choice, Quot.sound at most)",
     "translate/extract_cmock.py (regex extractor of struct member order, table initialisers, forwarder bodies, the "
-    "getMockValueCFromNamedValue branch chain, C++ getter shapes); cross-checked on every run: the model dispatches through the "
-    "regenerated tables and its predicted C++ calls / C results are diffed against the real code",
+    "getMockValueCFromNamedValue branch chain, C++ getter shapes, node constructors and freeing loops, reporter / terminator "
+    "bodies, the reporter argument of mock_c / mock_scope_c); cross-checked on every run: the model dispatches through the "
+    "regenerated tables and its predicted C++ calls / C results / crash-hook calls are diffed against the real code",
     "the abstract C++ mock of the model is the real C++ implementation in the harness: equality of the two runs of the real "
     "code is observed per generated scenario (h_c19), not proved",
-    "hand-written REQUIRED tables in lean/CppUModel/Spec/MockC.lean (the documented meaning of MockSupport_c.h)",
-    "that the C terminator (longjmp) and the C++ terminator (exception) both just end the current test",
+    "hand-written REQUIRED tables in lean/CppUModel/Spec/MockC.lean, Spec/MockCNodes.lean, Spec/MockCReporter.lean (the "
+    "documented meaning of MockSupport_c.h; list discipline; reporter plumbing)",
+    "hand-written models of the C++ side of the reporter plumbing (mock(name, reporter), setActiveReporter, crashOnFailure, "
+    "shared standard reporter) and of the comparator/copier repository (install forwarding, scope clone, clear); tied by the "
+    "crash / adaptor streams of the harness",
+    "that the C terminator (longjmp) and the C++ terminator (exception) both just end the current test; UtestShell::setCrashMethod "
+    "replaces the crash method by a recorder in the harness",
 ]
 ASSUMPTIONS = [
     "LP64, CPPUTEST_USE_LONG_LONG=1 (the checked build)",
     "a scenario uses call objects only while they exist (no chain member after clear()), sizes never exceed the buffers they describe",
     "aligned class: a return-value getter is asked while the selected scope is the one the last actual call was made on "
-    "(outside it the two known findings apply)",
-    "crashOnFailure(non-zero) is excluded",
+    "(outside it the two alignment findings apply)",
+    "disciplined class for adaptor lifetime: removeAllComparatorsAndCopiers only on the global mock and only while no "
+    "expectation made since the last global clear() carries a typed parameter (outside it the two adaptor findings apply)",
+    "`leaked` (allocations alive after a run) is compared between model and implementation for passing runs only, and is not "
+    "part of the oracle: a failing C call is left by longjmp, which skips destructors",
 ]
-RULE = ("scenarios = sequences of C-level operations (scope selection, expectations with parameters of all 15 kinds, output "
-        "parameters, return values of all 12 types, actual calls matching or violating them in name/value/type/arity/order, "
-        "getters of the same / a compatible / another type with and without default, data store, strict order, ignore, "
-        "disable/enable, check, clear) + a deterministic sweep of every table member x every boundary value; each is run through "
+RULE = ("scenarios = sequences of C-level operations (scope selection incl. a scope name with '::', expectations with parameters "
+        "of all 15 kinds, output parameters, return values of all 12 types, actual calls matching or violating them in "
+        "name/value/type/arity/order, getters of the same / a compatible / another type with and without default, data store, "
+        "strict order, ignore, disable/enable, check, clear, crashOnFailure with every truth value, comparator alone / copier "
+        "alone / both on the global mock or a named scope, removeAll) + a deterministic sweep of every table member x every "
+        "boundary value, buffers at the exact harness lengths, crashOnFailure x failure site x teardown; each is run through "
         "the C interface and through the C++ interface in two fresh tests; non-trivial = at least one actual-call chain member "
         "executed; distinct = distinct op sequences")
 LEVEL_TEXT = ("Machine-checked Lean 4 theorems: the wiring of all three C function tables regenerated from MockSupport_c.h/.cpp "
               "equals the documented wiring (member order = initialiser order, every forwarder calls the required C++ method with "
               "the required argument conversions); the value conversion keeps type tag and payload for every type string; "
-              "...OrDefault returns the default iff there is no return value; and for every scenario of any length in the aligned "
+              "...OrDefault returns the default iff there is no return value; for every scenario of any length in the aligned "
               "class the C layer over ANY C++ mock (abstract parameter) produces the same C++ state and the same canonical "
-              "results as the C++ program the scenario stands for (induction over the scenario). The full statement without the "
-              "alignment hypothesis is refuted in Lean by a concrete witness and reproduced on the real code (two known findings). "
-              "Every run diffs the model's dispatch and predicted results against the real code and compares the C run with the "
-              "C++ run of the real code on generated scenarios.")
-LEVEL_NOTE = ("Proved: wiring, conversions, defaulting, refinement C layer -> C++ program over an abstract mock. Observed only: that "
-              "the real C++ implementation behaves identically when driven by the C layer's reporter/terminator (verdict and "
-              "failure text of the two real runs are compared per scenario), adaptor nodes and reporter bodies are pinned as text.")
-TECHNIQUE = ("Lean 4 refinement proof (C layer as state machine over an abstract C++ mock) + regenerated wiring tables checked by "
-             "decide + differential harness C interface vs C++ interface on the real code")
+              "results as the C++ program the scenario stands for (induction over the scenario). New: the adaptor-node lists "
+              "(constructor initialisers and the freeing loops of removeAllComparatorsAndCopiers_c, interpreted from the source) "
+              "account for every node in every history (no leak, no double delete, loops terminate); on the disciplined class "
+              "nobody ever points to a deleted node, through C++ never; the reporter plumbing (reporter argument of mock_c / "
+              "mock_scope_c, failTest and exitCurrentTest of both reporter/terminator pairs, interpreted from the source): every "
+              "MockSupport reached through C has the C reporter active and the crash hook / failure recording / exit kind agree "
+              "with the C++ run for every scenario. The full statements without the alignment / discipline hypotheses are refuted "
+              "in Lean by concrete witnesses and reproduced on the real code (four known findings). Every run diffs the model's "
+              "dispatch and predicted results against the real code and compares the C run with the C++ run of the real code on "
+              "generated scenarios.")
+LEVEL_NOTE = ("Proved: wiring, conversions, defaulting, refinement C layer -> C++ program over an abstract mock; node-list accounting "
+              "and lifetime discipline; reporter activation and failure path. Regenerated and interpreted: all 125 forwarders, "
+              "value-tag chain, node constructors, freeing loops, reporter/terminator bodies, reporter arguments. Observed only: "
+              "that the real C++ implementation behaves identically when driven by the C layer (verdict, failure text, crash hook, "
+              "returned values and output bytes of the two real runs are compared per scenario); the C++ side of the reporter "
+              "plumbing and of the comparator repository is a hand model; assertion-macro failures inside the mock core leave a C "
+              "call by an exception (recorded, same through both interfaces).")
+TECHNIQUE = ("Lean 4 refinement proof (C layer as state machine over an abstract C++ mock) + regenerated wiring / node-list / "
+             "reporter tables interpreted by the model and checked by decide and by induction + differential harness C interface "
+             "vs C++ interface on the real code (ASan/UBSan, crash-hook recorder, allocation delta)")
